@@ -201,6 +201,10 @@ func (r *Run) execInstr(fr *Frame, st *State, reach Term, ins ssa.Instruction, o
 		c := r.mustTerm(r.operand(fr, st, ins.Cond), "if cond")
 		out.cond = r.ctx.Define("c", c)
 		out.isIf = true
+		if !out.cond.IsTrue() && !out.cond.IsFalse() {
+			r.conds = append(r.conds, out.cond)
+			r.condMark = append(r.condMark, r.ctx.Mark())
+		}
 		return reach, false
 	case *ssa.Return:
 		var vals []Val
